@@ -421,6 +421,23 @@ pub fn sdp_sdes() -> String {
         .to_string()
 }
 
+/// A T.38 fax description (image section over UDPTL).
+pub fn sdp_t38() -> String {
+    "v=0\r\n\
+     o=- 20519 1 IN IP4 127.0.0.1\r\n\
+     s=fax\r\n\
+     t=0 0\r\n\
+     m=image 4000 udptl t38\r\n\
+     c=IN IP4 127.0.0.1\r\n\
+     a=T38FaxVersion:0\r\n\
+     a=T38MaxBitRate:14400\r\n\
+     a=T38FaxRateManagement:transferredTCF\r\n\
+     a=T38FaxMaxBuffer:262\r\n\
+     a=T38FaxMaxDatagram:176\r\n\
+     a=T38FaxUdpEC:t38UDPRedundancy\r\n"
+        .to_string()
+}
+
 pub fn candidate_line() -> String {
     "candidate:2 1 tcp 1518280447 192.0.2.1 9 typ host tcptype passive".to_string()
 }
@@ -430,6 +447,7 @@ pub fn text(tpl: &str) -> Option<String> {
         "sdp.webrtc" => sdp_webrtc(),
         "sdp.simulcast" => sdp_simulcast(),
         "sdp.sdes" => sdp_sdes(),
+        "sdp.t38" => sdp_t38(),
         "sdp.candidate" => candidate_line(),
         _ => return None,
     })
